@@ -20,9 +20,74 @@ def corpus_jobs(prop):
     return jobs
 
 
+_INPUT_CLASSES = None
+
+
+def _input_classes():
+    """corpus entries whose class is `kf_input:<sha1 prefix>` identify a known finding by its exact input"""
+    global _INPUT_CLASSES
+    if _INPUT_CLASSES is None:
+        import hashlib
+        _INPUT_CLASSES = {}
+        for f in glob.glob(str(core.VERIF / "corpus" / "C0[127]" / "*.json")):
+            e = json.loads(open(f).read())
+            if str(e.get("class", "")).startswith("kf_input:"):
+                _INPUT_CLASSES[(e["codemod"], hashlib.sha1(e["code"].encode()).hexdigest()[:12])] = e["class"]
+    return _INPUT_CLASSES
+
+
+def _dropped_binding_class(codemod, before, after1):
+    """C02 classes for bindings that the rewrite drops although they are still read:
+    (a) the name is read from another function scope than the one that assigns it; (b) extra targets of a chained assignment."""
+    import ast
+    name = codemod.split("/")[-1]
+    ub, ua = e2e.unresolved(before), e2e.unresolved(after1)
+    if ub is None or ua is None:
+        return None
+    new = ua - ub
+    try:
+        tree = ast.parse(before)
+    except SyntaxError:
+        return None
+    chained = set()
+    for n in ast.walk(tree):
+        if isinstance(n, ast.Assign) and len(n.targets) >= 2:
+            chained |= {t.id for t in n.targets[1:] if isinstance(t, ast.Name)}
+    if new and new <= chained:
+        return f"kf_chained_assignment_target_dropped:{name}"
+    # names assigned in scope S and loaded inside a function nested in (or other than) S
+    def scopes(node, cur, acc):
+        for ch in ast.iter_child_nodes(node):
+            if isinstance(ch, (ast.FunctionDef, ast.AsyncFunctionDef, ast.Lambda)):
+                scopes(ch, ch, acc)
+            else:
+                if isinstance(ch, ast.Name):
+                    acc.append((ch.id, type(ch.ctx).__name__, cur))
+                scopes(ch, cur, acc)
+    acc = []
+    scopes(tree, tree, acc)
+    cross = set()
+    for nm in new:
+        stores = {sc for (i, c, sc) in acc if i == nm and c == "Store"}
+        loads = {sc for (i, c, sc) in acc if i == nm and c == "Load"}
+        if stores and (loads - stores):
+            cross.add(nm)
+    if new and new <= cross:
+        return f"kf_binding_read_from_nested_scope_dropped:{name}"
+    return None
+
+
 def classify(prop, codemod, before, after1, after2):
     """Finding classes (narrow, decidable on the input)."""
     name = codemod.split("/")[-1]
+    import hashlib
+    hit = _input_classes().get((codemod, hashlib.sha1(before.encode()).hexdigest()[:12]))
+    if hit:
+        return hit
+    if prop == "C02" and after1 is not None:
+        c = _dropped_binding_class(codemod, before, after1)
+        if c:
+            return c
     if prop == "C01" and name == "lazy-logging":
         # some un-prefixed string literal whose raw content cannot stand between double quotes as it is
         # (the complement of the guard of theorem C01_requote_lexes; same predicate as Model/StrLit.v dq_safe)
@@ -139,7 +204,7 @@ def run(ctx: core.Ctx, prop: str):
         per, nv = per * 2, nv + 2
     # the variant families that matter most for the property are always generated, the others are sampled
     priority = {"C01": ("ctx_", "own_block", "comment_above"),
-                "C02": ("second_use", "twin_import", "aliased_twin", "in_def", "in_class"),
+                "C02": ("second_use", "twin_import", "aliased_twin", "nested_reader", "chained_assign", "aliased_import_renamed"),
                 "C07": ("nested_call", "twin_import", "ctx_tuple")}[prop]
     jobs = corpus_jobs(prop) + e2e.build_jobs(rng, per_codemod=per, variants_per_seed=nv, priority=priority)
     outs = e2e.run_jobs(ctx, jobs)
